@@ -8,6 +8,8 @@ import (
 	"sync"
 	"sync/atomic"
 
+	"k8s.io/client-go/util/retry"
+
 	"github.com/kubewharf/kubegateway/pkg/ratelimiter/util"
 
 	"verifharness/rig"
@@ -52,6 +54,23 @@ func genScript(r *rand.Rand, n int) []string {
 		if r.Intn(4) == 0 {
 			kind = rig.Pick(r, []string{"notFound", "alreadyExists", "transient"})
 		}
+	}
+	if mode == 9 && n > 0 {
+		// a conflict storm on one call: every attempt's Update answers 409 and the re-read Get succeeds, until the
+		// attempts (retry.DefaultRetry.Steps) run out: conflict, ok, conflict, ok, …
+		for i := range s {
+			s[i] = "ok"
+		}
+		start := 0
+		if r.Intn(3) != 0 {
+			start = r.Intn(n)
+		}
+		for i, k := start, 0; i < n && k < 2*(retry.DefaultRetry.Steps+r.Intn(3)); i, k = i+1, k+1 {
+			if k%2 == 0 {
+				s[i] = "conflict"
+			}
+		}
+		return s
 	}
 	for i := range s {
 		s[i] = "ok"
@@ -312,7 +331,15 @@ func evaluate(c *rig.Ctx, cases []Case) {
 				}
 				if f != nil {
 					c.Count("failure:" + f.class)
-					unexpected.Add(1)
+					if f.kind != "judge" {
+						// a model/code difference does not end the search for an input on which the PROPERTY fails;
+						// a few of them are recorded (minimised), the others only counted
+						if diffs.Add(1) > 4 {
+							continue
+						}
+					} else {
+						unexpected.Add(1)
+					}
 					small := shrink(c, cs, f.class)
 					f2 := evalCase(c, small)
 					if f2 == nil || f2.class != f.class {
@@ -330,7 +357,7 @@ func evaluate(c *rig.Ctx, cases []Case) {
 	wg.Wait()
 }
 
-var unexpected atomic.Int32
+var unexpected, diffs atomic.Int32 // judge failures / model-code differences so far
 
 func generate(c *rig.Ctx) {
 	n := c.Budget(2500, 30000)
@@ -390,6 +417,20 @@ func exhaustive(c *rig.Ctx) {
 				// a fault can lengthen the run (retries): crash points up to n+4 cover it
 				add(script, n+4)
 			}
+		}
+		for p := 0; p < n; p++ {
+			// a conflict storm starting at every call
+			script := make([]string, p+2*retry.DefaultRetry.Steps)
+			for j := range script {
+				script[j] = "ok"
+				if j >= p && (j-p)%2 == 0 {
+					script[j] = "conflict"
+				}
+			}
+			x := base
+			x.Script = script
+			x.CrashAt = -1
+			cases = append(cases, x)
 		}
 		c.Count("exhaustive:lists")
 		evaluate(c, cases)
